@@ -348,6 +348,10 @@ def run_sim_class(chk, cls, scs, mons, variant=None, batch=250, tag=None):
             sc["poll_inside"] = True           # is_simulation_done() asked from inside the callbacks (a read-only query)
         if "interloper" not in sc and k % 5 == 4:
             sc["interloper"] = True            # an unrelated simulation is built and run from inside the 2nd and 5th callback
+        if "early_controller" not in sc and k % 7 == 3:
+            sc["early_controller"] = True
+        if "late_classes" not in sc and k % 3 == 0:
+            sc["late_classes"] = True
         if "truthy_preds" not in sc and k % 2 == 1:
             sc["truthy_preds"] = True          # assertion predicates return non-bool objects with the same truth value
         # the harness' own default switches execution logging off; every fourth scenario runs under the
@@ -545,6 +549,16 @@ def check_C01(chk, R, S):
     run_el_class(chk, "el-chronological", el_chrono(R, max(200, S["el_rand"] // 4)))
     run_el_class(chk, "el-around-source-constants", el_mined(R, max(300, S["el_rand"] // 4)))
     run_el_class(chk, "el-events-at-infinity", el_infinite(R, 200))
+    # runs paced against the wall clock in which one callback takes a noticeable wall-clock time (0.12 s): what a callback
+    # costs in real time is no input of the simulated clock
+    slow = []
+    for j in range(4):
+        sc = gen_decimal_ties(R) if j % 2 else gen_timer_storm(R)
+        sc["drv"] = ("run",)
+        sc["variant"] = {"real_time": 1e6 if j < 3 else 40.0}
+        sc["slow_cb"] = 2 + j
+        slow.append(sc)
+    run_sim_class(chk, "sim-paced-slow-callback", slow, [M.mon_C01])
     _crowd_class(chk, R, [M.mon_C01])
     # the same scenarios in a child interpreter started with optimisations on (asserts stripped): same traces
     import subproc_matrix
@@ -584,10 +598,30 @@ def check_C03(chk, R, S):
     run_sim_class(chk, "sim-bursts", [gen_burst(R) for _ in range(S["sims"])], [M.mon_C03])
     run_sim_class(chk, "sim-timer-rearm", [gen_rearm(R) for _ in range(S["sims"])], [M.mon_C03])
     run_sim_class(chk, "sim-decimal-ties", [gen_decimal_ties(R) for _ in range(max(60, S["sims"] // 5))], [M.mon_C03])
+    run_sim_class(chk, "sim-mass-cancel", [gen_mass_cancel(R, n) for n in sorted(set([1100] + [m for m in mined_burst_sizes() if m <= 12000]))[:6]
+                                           for _ in range(2)], [M.mon_C03], batch=4)
     run_el_class(chk, "el-chronological", el_chrono(R, max(200, S["el_rand"] // 4)))
     run_el_class(chk, "el-around-source-constants", el_mined(R, max(300, S["el_rand"] // 4)))
     run_el_class(chk, "el-events-at-infinity", el_infinite(R, 200))
     chk.exhaustive = True
+
+
+def gen_mass_cancel(R, size):
+    """a watchdog re-armed `size` times and then cancelled (that many dead events stay queued, the majority of the queue)
+    while same-instant timers and messages requested before and after earlier events were executed are waiting"""
+    T = R.choice([5.0, 6.0])
+    nn = 2
+    first = [("settimer", 10 + j, "abs", T) for j in range(R.randint(3, 6))]
+    second = [("settimer", 20 + j, "abs", T) for j in range(R.randint(3, 6))] + [("send", 30 + j, 1) for j in range(R.randint(2, 5))]
+    R.shuffle(second)
+    script = [[{"trig": ("init",), "nth": None, "acts": first + [("settimer", 0, "abs", 0.5), ("settimer", 3, "abs", 1.0), ("settimer", 4, "abs", 1.0 + (T - 1.0) / 2)]},
+               {"trig": ("timer", 0), "nth": None, "acts": [("settimer", 5, "abs", 0.75)]},
+               {"trig": ("timer", 3), "nth": None, "acts": second + [("settimer", 1, "abs", 9.0)] * size + [("cancel", 1)]},
+               {"trig": ("timer", 4), "nth": None, "acts": [("settimer", 40 + j, "abs", T) for j in range(3)] + [("cancel", 1)]}],
+              [{"trig": ("init",), "nth": None, "acts": [("settimer", 50, "abs", T), ("settimer", 51, "abs", T)]}]]
+    return {"handlers": ["T", "C"], "nodes": [{"pos": (float(i), 0.0, 0.0), "ty": 0} for i in range(nn)],
+            "med": (100.0, T - 1.0, 0.0), "mob": (0.5, 1.0, (0.0, 0.0, 0.0)), "asserts": [], "seed": 1, "dur": 12.0, "maxit": None,
+            "drv": ("run",), "script": script, "trace_limit": 4 * size + 2000, "fuel": 2 * size + 5000, "time_limit": 120.0}
 
 
 def gen_rearm(R, names=3):
@@ -1138,7 +1172,7 @@ def check_C07(chk, R, S):
     plugin_hosts_class(chk, R, max(30, S["sims"] // 8))
 
 
-def plugin_hosts_class(chk, R, count):
+def plugin_hosts_class(chk, R, count, telemetry=False):
     """the protocol's own timers when it hosts one of the library's follow-mobility plugins (which run timers and exchange
     messages of their own): compared with the same scenario without the plugin -- own timers fire exactly as they would.
     The plugins themselves are not modelled: the two implementation runs are compared with each other."""
@@ -1155,7 +1189,7 @@ def plugin_hosts_class(chk, R, count):
             script.append(rules)
         base = {"handlers": ["T", "C", "M"], "nodes": [{"pos": (float(3 * i), 0.0, 0.0), "ty": 0} for i in range(nn)],
                 "med": (100.0, 0.0, 0.0), "mob": (0.05, 1.0, (0.0, 0.0, 0.0)), "asserts": [], "seed": 1, "dur": 0.5, "maxit": None,
-                "drv": ("run",), "script": script, "tag_names": True, "quote_plugin": True, "trace_limit": 200000}
+                "drv": ("run",), "script": script, "tag_names": True, "quote_plugin": True, "trace_limit": 200000, "late_classes": True}
         hosted = dict(copy.deepcopy(base), host_plugin=R.choice(["leader", "follower"]))
         ta, _ = run_sim_impl(base)
         try:
@@ -1166,7 +1200,9 @@ def plugin_hosts_class(chk, R, count):
                           ["%s: hosting the %s plugin makes the run raise %s: %s (the same scenario without the plugin completes)"
                            % (chk.prop, hosted["host_plugin"], type(e).__name__, str(e)[:120])])
             continue
-        own = lambda tr: [l for l in tr if l.startswith("cb ") and (l.split()[3] == "timer" or (l.split()[3] == "packet" and l.split()[4].isdigit()))]   # noqa: E731
+        own = lambda tr: [" ".join(l.split()[:4]) if l.split()[3] == "telem" else l for l in tr if l.startswith("cb ") and (   # noqa: E731
+            l.split()[3] == "timer" or (l.split()[3] == "packet" and l.split()[4].isdigit()) or (telemetry and l.split()[3] == "telem"))]
+        # (telemetry: which node is told at which time; the follower plugin steers its node, so positions may differ)
         chk.record("sim-plugin-hosts", {"host": hosted["host_plugin"], "nodes": nn}, True)
         chk.validated += 2
         if own(ta) != own(tb):
@@ -1473,6 +1509,29 @@ def check_C11(chk, R, S):
         extreme.append(sc)
     # speeds at the ends of the double range: speed * interval overflows to infinity (the node lands at once) or underflows
     run_sim_class(chk, "sim-motion-extreme-speeds", extreme, [M.mon_C11])
+    # a node that changes its mind: three to five target commands of alternating kinds (Cartesian, geographic, speed) in
+    # one callback, or in callbacks between two updates -- the last one counts
+    bursts = []
+    for _ in range(max(40, S["sims"] // 6)):
+        sc = gen_motion(R)
+        for rules in sc["script"]:
+            for r in rules:
+                if r["trig"][0] == "init" and R.random() < 0.5:
+                    continue
+                acts = []
+                geo = R.random() < 0.5
+                for _ in range(R.randint(3, 5)):
+                    if R.random() < 0.15:
+                        acts.append(("speed", R.choice([0.5, 2.0, 5.0])))
+                    elif geo:
+                        acts.append(("gotogeo", R.uniform(-2e-4, 2e-4), R.uniform(-2e-4, 2e-4), R.uniform(0, 5)))
+                    else:
+                        acts.append(("goto",) + gen_sim.gen_pos(R, 10))
+                    if R.random() < 0.85:
+                        geo = not geo
+                r["acts"] = [a for a in r["acts"] if a[0] == "settimer"] + acts
+        bursts.append(sc)
+    run_sim_class(chk, "sim-motion-command-bursts", bursts, [M.mon_C11])
 
 
 def check_C12(chk, R, S):
@@ -1495,6 +1554,7 @@ def check_C12(chk, R, S):
         absorbed.append({"handlers": R.sample(["T", "M"], 2), "nodes": nodes, "med": (60.0, 0.0, 0.0), "mob": (R.choice([0.5, 0.25]), 1e-9, (0.0, 0.0, 0.0)),
                          "asserts": [], "seed": 1, "dur": 5.0, "maxit": None, "drv": ("run",), "script": script})
     run_sim_class(chk, "sim-telemetry-absorbed-steps", absorbed, [M.mon_C12])
+    plugin_hosts_class(chk, R, max(30, S["sims"] // 8), telemetry=True)
 
 
 def gen_pair_C13(R):
@@ -1652,6 +1712,30 @@ def gen_pair_C13_parked(R):
     return with_, without, x, "silent-parked"
 
 
+def gen_pair_C13_refused(R):
+    """the silent node makes a request that is REFUSED (a timer in the past, which it is told about by the documented
+    exception), the others then set timers of their own, and the silent node cancels the name of its refused request"""
+    nn = R.randint(2, 4)
+    x = R.choice([0, nn - 1, R.randrange(nn)])
+    t_ref, t_b, t_cancel = R.choice([0.5, 0.6]), R.choice([0.75, 0.8]), R.choice([1.0, 1.5])
+    script = []
+    for me in range(nn):
+        rules = [{"trig": ("init",), "nth": None, "acts": [("settimer", 0, "abs", t_b + 0.01 * me)] + ([("settimer", 2, "abs", 2.5)] if R.random() < 0.5 else [])},
+                 {"trig": ("timer", 0), "nth": None, "acts": [("settimer", R.choice([1, 2]), "abs", R.choice([2.0, 3.0]))] + ([("settimer", 1, "rel", 0.5)] if R.random() < 0.4 else [])}]
+        script.append(rules)
+    base = {"handlers": ["T"] + (["C"] if R.random() < 0.5 else []), "nodes": [{"pos": (float(i), 0.0, 0.0), "ty": 0} for i in range(nn)],
+            "med": (100.0, 0.0, 0.0), "mob": (0.5, 1.0, (0.0, 0.0, 0.0)), "asserts": [], "seed": 1,
+            "dur": 4.0, "maxit": None, "drv": ("run",), "script": script}
+    name = R.choice([1, 2, 3])
+    with_ = copy.deepcopy(base)
+    with_["script"][x] = [{"trig": ("init",), "nth": None, "acts": [("settimer", 0, "abs", t_ref), ("settimer", 4, "abs", t_cancel)]},
+                          {"trig": ("timer", 0), "nth": None, "acts": [("settimer", name, "abs", R.choice([0.1, 0.25, 0.0]))] * R.randint(1, 2)},
+                          {"trig": ("timer", 4), "nth": None, "acts": [("cancel", name)]}]
+    without = copy.deepcopy(base)
+    without["script"][x] = []
+    return with_, without, x, "silent-refused-request"
+
+
 def check_C13(chk, R, S):
     chk.rule = ("paired runs: a scenario with and without a sequence of node-scoped requests (set/cancel timer, goto, "
                 "speed, range) by a silent existing node or by one additional node; the other nodes' callbacks, times, "
@@ -1662,6 +1746,7 @@ def check_C13(chk, R, S):
     pairs = [gen_pair_C13(R) for _ in range(S["sims"] * 3)] + [gen_pair_C13_coincide(R) for _ in range(S["sims"])] + \
             [gen_pair_C13_crossing(R) for _ in range(max(20, S["sims"] // 5))] + \
             [gen_pair_C13_parked(R) for _ in range(max(20, S["sims"] // 5))] + \
+            [gen_pair_C13_refused(R) for _ in range(max(20, S["sims"] // 5))] + \
             [gen_pair_C13_burst(R, n) for n in mined_burst_sizes() if n <= 12000]
     ra = corr.corr_sims([p[0] for p in pairs])
     rb = corr.corr_sims([p[1] for p in pairs])
@@ -1940,6 +2025,8 @@ def gen_disp_case(R, maxops=10, nested=False):
     case = {"ninst": ninst, "beh": beh, "ops": ops}
     if R.random() < 0.4:
         case["bound"] = True               # handlers are bound methods, looked up anew for every (un)registration
+    if not case.get("bound") and (len(ops) + nh) % 3 == 0:
+        case["partials"] = True            # handlers are functools.partial objects with equal bound arguments
     if R.random() < 0.35:
         case["shape"] = R.choice(["decorated", "aliased"])    # how the protocol class defines its callbacks
     if R.random() < 0.5:
@@ -2143,7 +2230,7 @@ def check_C16(chk, R, S):
     chk.exhaustive = True
 
 
-def gen_trip_case(R, scripted=False, maxops=14):
+def gen_trip_case(R, scripted=False, maxops=14, restarts=False):
     def rng():
         a = float(R.randint(-60, 40))
         if R.random() < 0.25:
@@ -2156,7 +2243,9 @@ def gen_trip_case(R, scripted=False, maxops=14):
     ops = []
     for _ in range(R.randint(2, maxops)):
         x = R.random()
-        if x < 0.25:
+        if restarts and x < 0.3:
+            ops.append(("init+telem", None))
+        elif x < 0.25:
             ops.append(("init",))
         elif x < 0.4:
             ops.append(("finish",))
@@ -2168,7 +2257,7 @@ def gen_trip_case(R, scripted=False, maxops=14):
             ops.append(("telem+finish", None))
         else:
             ops.append(("telem+init", None))
-    during = R.random() < 0.15
+    during = R.random() < 0.15 and not restarts
     if during:
         # a trip is started, a foreign telemetry handler is registered, and the trip is started AGAIN at once
         ops = [("init",), ("init",)] + [op for op in ops if op[0] not in ("telem+finish", "telem+init")]
@@ -2190,9 +2279,19 @@ def gen_trip_case(R, scripted=False, maxops=14):
                 target, ongoing = w, True
         elif op[0] == "finish":
             ongoing = False
-        elif op[0] in ("telem", "telem+finish", "telem+init"):
+        elif op[0] in ("telem", "telem+finish", "telem+init", "init+telem"):
             y = R.random()
             base = target if target is not None else (0.0, 0.0, 0.0)
+            if op[0] == "init+telem" and not ongoing:
+                op = ops[i] = ("telem", None)          # (only a trip under way can be started AGAIN from a handler)
+            elif op[0] == "init+telem":
+                # a foreign telemetry handler registered while the trip is under way starts it again, typically because the
+                # position reported is the old target: the restart comes first, the trip's own reaction to the report second
+                w = tuple(box[k][0] + (box[k][1] - box[k][0]) * st[cur + k] for k in range(3))
+                cur += 3
+                target = w
+                if y > 0.8:
+                    base = w
             if y < 0.45:
                 p = base
             elif y < 0.6:
@@ -2219,7 +2318,7 @@ def gen_trip_case(R, scripted=False, maxops=14):
         case["decoy"] = True     # the protocol also owns an idle mission plugin and a second trip plugin that never starts
     if R.random() < 0.3:
         case["kept_ref"] = True  # telemetry delivered through a bound method looked up once, after the plugin was created
-    if "mute" not in case and R.random() < 0.3 and not any(op[0] in ("telem+finish", "telem+init") for op in ops):
+    if "mute" not in case and R.random() < 0.3 and not any(op[0] in ("telem+finish", "telem+init", "init+telem") for op in ops):
         case["mute"] = True      # after the first trip an INTERRUPTing telemetry filter is registered on the protocol, for good
     return case
 
@@ -2241,6 +2340,8 @@ def check_C17(chk, R, S):
     run_plugin_class(chk, "trip-seeded", [gen_trip_case(R, False, 14 if chk.tier == "quick" else 50) for _ in range(S["sims"] * 2)],
                      impl, plugins.trip_to_text, M.mon_C17)
     run_plugin_class(chk, "trip-scripted", [gen_trip_case(R, True, 14 if chk.tier == "quick" else 50) for _ in range(S["sims"] * 2)],
+                     impl, plugins.trip_to_text, M.mon_C17)
+    run_plugin_class(chk, "trip-restarted-from-a-handler", [gen_trip_case(R, k % 2 == 0, 14, restarts=True) for k in range(max(60, S["sims"] // 3))],
                      impl, plugins.trip_to_text, M.mon_C17)
     run_plugin_class(chk, "trip-long", [gen_trip_case(R, k % 2 == 0, 150) for k in range(max(12, S["sims"] // 20))],
                      impl, plugins.trip_to_text, M.mon_C17)
@@ -2436,6 +2537,20 @@ def check_C14(chk, R, S):
         vs = [x for x in I.mon_C14(c, lines) if "NotImplementedError" not in x]
         if vs:
             chk.violation("interop-plugin-hosts", c, vs[:3])
+    # protocols that keep state in their tracked variables and read it back (the read-back is not modelled: the two wrappers
+    # are compared with each other)
+    for _ in range(max(40, S["sims"] // 6)):
+        c = gen_interop_case(R)
+        c["readback"] = True
+        for cb in c["cbs"]:
+            cb.pop("install", None)
+            cb.pop("tracks", None)
+        lines = I.run_interop_impl(c)
+        chk.record("interop-tracked-readback", {"callbacks": len(c["cbs"])}, True)
+        chk.validated += 1
+        vs = [x for x in I.mon_C14(c, lines) if "NotImplementedError" not in x]
+        if vs:
+            chk.violation("interop-tracked-readback", c, vs[:3])
     # the known limitation is probed on every run
     probe = {"nid": 0, "ty": 0, "rules": [{"trig": ("init",), "nth": None, "acts": [("settimer", 0, "abs", 1.0), ("cancel", 0)]}],
              "cbs": [{"t": 0.0, "kind": "init", "arg": None}]}
